@@ -87,6 +87,32 @@ class SimLock:
 		return False
 
 
+class SimRLock(SimLock):
+	"""Re-entrant variant: the owning simulated thread may acquire it again."""
+
+	def __init__(self, sim):
+		SimLock.__init__(self, sim)
+		self.depth = 0
+
+	def acquire(self, blocking=True, timeout=-1):
+		t = self.sim.current
+		me = t if t is not None else "driver"
+		if self.owner is me:
+			self.depth += 1
+			return True
+		ok = SimLock.acquire(self, blocking, timeout)
+		if ok:
+			self.depth = 1
+		return ok
+
+	def release(self):
+		if self.depth > 1:
+			self.depth -= 1
+			return
+		self.depth = 0
+		SimLock.release(self)
+
+
 class SimThreadHandle:
 	"""What `threading.Thread(...)` returns inside the simulation."""
 
@@ -130,7 +156,8 @@ class ThreadingSeam:
 	def Lock(self):
 		return SimLock(self._sim)
 
-	RLock = Lock
+	def RLock(self):
+		return SimRLock(self._sim)
 
 	def current_thread(self):
 		return self._sim.current
@@ -163,6 +190,15 @@ class TimeSeam:
 
 	def time(self):
 		return self.monotonic()
+
+	def time_ns(self):
+		return self.monotonic_ns()
+
+	def perf_counter(self):
+		return self.monotonic()
+
+	def perf_counter_ns(self):
+		return self.monotonic_ns()
 
 	def sleep(self, secs):
 		if secs < 0:
@@ -210,11 +246,15 @@ class RandomSeam:
 		self._log.append((a, b, v))
 		return v
 
-	def choice(self, seq):
-		return self._rng.choice(seq)
+	def randrange(self, *a):
+		v = self._rng.randrange(*a)
+		self._log.append(("randrange", a, v))
+		return v
 
-	def random(self):
-		return self._rng.random()
+	def __getattr__(self, name):
+		# anything else the code may use (choice, random, uniform, gauss, ...) comes from the
+		# same seeded stream
+		return getattr(self._rng, name)
 
 
 # ---------------------------------------------------------------- sockets -------------
